@@ -587,7 +587,8 @@ impl TypeName {
                 // Option<&T>/Option<Box<T>> are the ffi-safe way to specify options
                 TypeName::Reference(..) | TypeName::Box(..) => *stdlib == StdlibOrDiplomat::Stdlib,
                 // For other types (primitives, structs, enums) we need DiplomatOption
-                _ => *stdlib == StdlibOrDiplomat::Diplomat,
+                // (of something that is itself FFI-safe: DiplomatOption<&str> is not)
+                _ => *stdlib == StdlibOrDiplomat::Diplomat && inner.is_ffi_safe(),
              }
         }
     }
